@@ -8,6 +8,7 @@
   transcript, twice, cold and warm, and after `ucinewgame` against a fresh process).
 -/
 import Jence.Lemmas.Top
+import Jence.Lemmas.NoOverflow
 namespace Jence.Props.C18
 open Jence
 
@@ -42,5 +43,11 @@ theorem cleared_table_like_new (t : TT) (key : UInt64) (d : Nat) (a b : Int) (q 
 /-- **T18.2b** … and resets the history to length 0 (the following `position` then records the new game from its base) -/
 theorem cleared_history_empty (r : RepTable) : r.clear.pre = [] ∧ r.clear.index = 0 := by
   simp [RepTable.clear, RepTable.pre]
+
+
+/-- T18.1b with the overflow hypothesis discharged -/
+theorem second_search_same_history_of_room (R : Rules) (cfg : Cfg) (g : Game) (d : Int) (tt : TT) (rep : RepTable) (hroom : HistoryRoom rep) :
+    (search R cfg g d tt rep).2.rep.pre = rep.pre ∧ (search R cfg g d tt rep).2.rep.index = rep.index :=
+  second_search_same_history R cfg g d tt rep (search_no_overflow R cfg g d tt rep hroom).1
 
 end Jence.Props.C18
